@@ -93,6 +93,7 @@ Definition expected_pkg_vars : list (string * string * bool) :=
   [("interp", "asciiSpace", false); ("interp", "defaultShellCommand", true);
    ("interp", "errBreak", true); ("interp", "errCSVSeparator", true); ("interp", "errDoubleClose", true);
    ("interp", "errExit", true); ("interp", "errNext", true); ("interp", "errNextfile", true);
+    ("interp", "errNoFileReads", true);
    ("interp", "errorType", true); ("interp", "varRegex", true);
    ("lexer", "keywordTokens", true); ("lexer", "tokenNames", true);
    ("internal/ast", "specialVars", true);
